@@ -1,14 +1,15 @@
 #!/bin/sh
-# usage: tools_fixcommit.sh "<commit message>"  — runs the unedited baseline suite, then commits the working-tree change in /repo
+# usage: tools_fixcommit.sh "<commit message>" [paths...] — runs the unedited baseline suite, then commits the change in /repo
 set -e
 export GOFLAGS=-mod=mod GOPROXY=off GOSUMDB=off GOTOOLCHAIN=local
 cd /repo
-go build ./... 
-go test -vet=off -count=1 ./... 2>&1 | grep -v "no test files" | grep -v "^ok" && { echo "TESTS NOT CLEAN"; } || true
-if go test -vet=off -count=1 ./... >/dev/null 2>&1; then
-  git -c user.name=builder -c user.email=builder@example.com commit -qam "$1"
+msg="$1"; shift
+go build ./...
+if go test -vet=off -count=1 ./... >/tmp/fixcommit.log 2>&1; then
+  if [ $# -gt 0 ]; then git add "$@"; git -c user.name=builder -c user.email=builder@example.com commit -q -m "$msg" -- "$@"; else git -c user.name=builder -c user.email=builder@example.com commit -qam "$msg"; fi
   git log --oneline | head -1
   git status --short | head
 else
+  grep -v "^ok\|no test files" /tmp/fixcommit.log | head -30
   echo "baseline suite fails; not committed"; exit 1
 fi
